@@ -814,8 +814,13 @@ def line_with_knee(x, slope, icpt, knee):
     return y
 
 
-def tp_results_check(what, results, x, lims, ins, slope, icpt, area, volume, tol, tagp, yscale):
+def tp_results_check(what, results, x, lims, ins, slope, icpt, area, volume, tol, tagp, yscale, single_line=False):
     """Common to t-plot and alpha-s: every returned section must give the generating line."""
+    if lims is None and single_line and len(x) >= 5 and not len(results):
+        # automatic sections on a plot that is ONE exact straight line over the whole grid (5-100 points): the generating
+        # quantities are returned, not an empty result
+        raise Violation(f"{what}: no straight section found on {len(x)} exactly collinear points (automatic limits)",
+                        tag=tagp + "_no_result")
     if lims is not None:
         if len(results) != 1:
             raise Violation(f"{what}: {len(results)} results for one manual section of {len(ins)} collinear points",
@@ -867,7 +872,7 @@ def check_tplot(desc, ctx):
     area = (s * 1e-3) * (v_liq * 1e-6) / 1e-9
     volume = (ic * 1e-3) * v_liq
     tp_results_check(what, results, t, lims, ins, s, ic, area, (volume, float(q_mmol[ins[-1]]) * 1e-3 * v_liq), tol, "tplot",
-                     float(q_mmol[ins[-1]]))
+                     float(q_mmol[ins[-1]]), single_line=knee is None)
     ctx.label(size_class(len(p)), "entry_" + desc["entry"], "model_" + str(desc["model"][0]), "limits_auto" if lims is None else
               "limits_manual", "knee" if knee else "single_line", f"sections_{min(len(results), 2)}",
               "above_off_model" if off_model else "above_on_model")
@@ -909,7 +914,8 @@ def _alphas_raw(desc, ctx):
         raise Violation(f"{what}: alpha curve is not reference loading / reducing loading", tag="alphas_curve")
     v_liq = M / rho
     tp_results_check(what, results, alpha, lims, ins, s, ic, a_ref * k_scale, (ic * 1e-3 * v_liq, float(q[ins[-1]]) * 1e-3 *
-                                                                                v_liq), TOL, "alphas", float(q[ins[-1]]))
+                                                                                v_liq), TOL, "alphas", float(q[ins[-1]]),
+                     single_line=not desc["knee"])
     ctx.label(size_class(len(ref)), "entry_raw", "self" if k_scale == 1.0 and ic == 0.0 else "scaled", "limits_auto" if lims is None else
               "limits_manual", f"sections_{min(len(results), 2)}")
     if results and len(ins) >= 5:
@@ -998,7 +1004,8 @@ def _alphas_iso(desc, ctx):
                         tag="alphas_iso_curve")
     v_liq = M / rho
     tp_results_check(what, out["results"], alpha, lims, ins, k_scale * apt, ic, a_ref * k_scale,
-                     (ic * 1e-3 * v_liq, float(q_mmol[ins[-1]]) * 1e-3 * v_liq), tol, "alphas_iso", float(q_mmol[ins[-1]]))
+                     (ic * 1e-3 * v_liq, float(q_mmol[ins[-1]]) * 1e-3 * v_liq), tol, "alphas_iso", float(q_mmol[ins[-1]]),
+                     single_line=bool(self_mode or not desc["knee"]))
     ctx.label(size_class(len(p)), "entry_" + desc["entry"],
               "area_" + (spec.lower() if isinstance(spec, str) else "number"),
               "limits_auto" if lims is None else "limits_manual", f"sections_{min(len(out['results']), 2)}",
